@@ -556,16 +556,23 @@ func (s *InMemoryStore) ListConsumerOffsets(ctx context.Context) ([]ConsumerOffs
 	return offsets, nil
 }
 
+// parseConsumerKey splits a "group:topic:partition" key. Group ids are free-form
+// and may contain ':' themselves, topic names cannot, so the key is taken apart
+// from the right.
 func parseConsumerKey(key string) (string, string, int32, bool) {
-	parts := strings.Split(key, ":")
-	if len(parts) != 3 {
+	partitionSep := strings.LastIndex(key, ":")
+	if partitionSep < 0 {
 		return "", "", 0, false
 	}
-	partition, err := strconv.ParseInt(parts[2], 10, 32)
+	topicSep := strings.LastIndex(key[:partitionSep], ":")
+	if topicSep < 0 {
+		return "", "", 0, false
+	}
+	partition, err := strconv.ParseInt(key[partitionSep+1:], 10, 32)
 	if err != nil {
 		return "", "", 0, false
 	}
-	return parts[0], parts[1], int32(partition), true
+	return key[:topicSep], key[topicSep+1 : partitionSep], int32(partition), true
 }
 
 // PutConsumerGroup implements Store.PutConsumerGroup.
